@@ -38,7 +38,9 @@ def check(cls):
 
 def catalogue(K, thorough=False):
     '''Catalogue rows used by the whole-line monitors.'''
-    rows = [S.FAN(K), S.GATE(K), S.REENT(K), S.REENT(K, src_cycle=1), S.GRP2(K), S.NEST_MID(K),
+    hg = 6 if thorough and K <= 1 else 4      # the two-source group scenarios grow fastest
+    rows = [S.FAN(K), S.GATE(K), S.REENT(K), S.REENT(K, src_cycle=1), S.GRP2(K, horizon=hg),
+            S.NEST_MID(K, horizon=hg),
             S.BATCH(K), S.BATCH(K, pattern=(None, 0, 3), size=3, cap=2, sink_cycle=1),
             S.RES(K), S.RES(K, r=2, q=0), S.RES_SER(K), S.MAINT(K), S.MAINT(K, n=1), S.BLOCK(K),
             S.BUDGET(K), S.REWIRE(K)]
@@ -62,12 +64,231 @@ class C02(Check):
         mons = ['census']
         jobs = []
         K = 1 if tier == 'quick' else 2
-        for sp in catalogue(K):
-            jobs.append(line_job(sp, mons, e2=3 if tier == 'quick' else 10, max_states=400000, max_seconds=900))
-        # two deviations on the smallest maintenance line (failure placed inside a shutdown / work order)
-        jobs.append(line_job(S.MAINT(K + 1, n=1), mons, e2=3, max_states=400000, max_seconds=900))
+        jobs = _line_jobs(catalogue(K, tier != 'quick') + [S.MAINT(K + 1, n=1)], mons, tier)
         nmax = 1 if tier == 'quick' else 2
         for sp, ok in S.ser_family(n_max=nmax):
             if ok:
                 jobs.append(line_job(sp, mons, e2=1))
         return jobs
+
+
+def _line_jobs(specs, mons, tier, e2q=3, e2t=10, **caps):
+    caps.setdefault('max_states', 400000)
+    caps.setdefault('max_seconds', 900)
+    caps.setdefault('max_depth', 800)
+    out = []
+    for sp in split_specs(specs):
+        m = [(['route', sp['name'].startswith('FAN')] if x == 'route' else x) for x in mons]
+        out.append(line_job(sp, m, e2=e2q if tier == 'quick' else e2t, **caps))
+    return out
+
+
+def split_specs(specs):
+    '''Scenarios with K >= 2 are partitioned by their first injected operation so that one
+    scenario can use several cores (the union of the parts is the whole space).'''
+    out = []
+    for sp in specs:
+        if sp.get('K', 0) >= 2 and len(sp.get('ops', [])) >= 2:
+            for i in range(len(sp['ops'])):
+                s2 = dict(sp)
+                s2['first_op'] = i
+                s2['name'] = f'{sp["name"]}/first={"-".join(str(x) for x in sp["ops"][i])}'
+                out.append(s2)
+        else:
+            out.append(sp)
+    return out
+
+
+def _fact_nontrivial(*facts):
+    def f(self, r):
+        fs = r.get('facts', {})
+        return r.get('branching_states', 0) > 0 and all(fs.get(x, 0) > 0 for x in facts)
+    return f
+
+
+@check
+class C03(Check):
+    prop = 'C03'
+    rule = ('every tie-break order x every placement of <=K injected operations (failure, shutdown/restore, work '
+            'order, block/unblock, resource capacity +-1, budget +-1/2, rewiring) on each catalogue scenario; at every '
+            'state in which the clock is about to advance and at the end of the run each ready part is offered to the '
+            'real give_part of its downstream list on a forked copy; non-trivial = a scenario in which at least one such '
+            'probe found a genuinely blocked part and at least one state branched')
+    level_text = ('Liveness-as-safety invariant ("no ready part whose downstream would accept it while the clock advances") '
+                  'checked in every reachable quiescent state, acceptance decided by the implementation itself on a fork; '
+                  'plus termination of every explored run within a step cap.')
+    nontrivial = _fact_nontrivial('wakeup_probe')
+
+    def jobs(self, tier):
+        K = 1 if tier == 'quick' else 2
+        specs = catalogue(K, tier != 'quick') + [S.MAINT(K + 1, n=1), S.RES(K + 1, horizon=4), S.BUDGET(K + 1),
+                                                   S.REWIRE(K + 1, horizon=4), S.BLOCK(K + 1, horizon=4)]
+        jobs = _line_jobs(specs, ['wakeup'], tier)
+        nmax = 1 if tier == 'quick' else 2
+        for sp, ok in S.ser_family(n_max=nmax):
+            if ok:
+                jobs.append(line_job(sp, ['wakeup'], e2=1, max_depth=800))
+        return jobs
+
+
+def buffer_scenarios(K, thorough):
+    rows = [S.FAN(K), S.FANOUT(K), S.BATCH(K, cap=2, sink_cycle=1), S.BATCH(K, pattern=(3, None, 2), size=None, cap=3, sink_cycle=1),
+            S.MAINT(K), S.RES_SER(K), S.DELAY01(K)]
+    return rows
+
+
+@check
+class C05(Check):
+    prop = 'C05'
+    rule = ('every tie-break order x <=K injected operations on scenarios with buffers between competing real producers '
+            'and consumers (fan-in, fan-out, batches, failing/blocked/resource-starved consumers, one non-dyadic delay), '
+            'plus every well-posed serial line of length <=2 that contains a buffer (K=0); non-trivial = some part left a '
+            'buffer and some hand-over was refused')
+    level_text = ('Buffer invariants (level = stored leaves <= capacity, removal only from the head in hand-over order, '
+                  'departure >= arrival + delay - 1ulp) evaluated after every real event in every reachable state.')
+    nontrivial = _fact_nontrivial('buffer_departure', 'refusal')
+
+    def jobs(self, tier):
+        K = 1 if tier == 'quick' else 2
+        jobs = _line_jobs(buffer_scenarios(K, tier != 'quick'), ['buffer'], tier)
+        nmax = 2
+        for sp, ok in S.ser_family(n_max=nmax, budgets=(None,) if tier == 'quick' else (None, 2)):
+            if ok and any(d['kind'] == 'buffer' for d in sp['devices']):
+                jobs.append(line_job(sp, ['buffer'], e2=1, max_depth=800))
+        return jobs
+
+
+@check
+class C06(Check):
+    prop = 'C06'
+    rule = ('every tie-break order x <=K injected shutdown/restore/failure(now, +1)/work-order(duration 0, 1.5) operations '
+            'on maintenance lines whose receive callbacks change the cycle time and add one-shot offsets per part ordinal '
+            '(including negative offsets floored at 0); operational processing time integrated by the monitor; '
+            'non-trivial = a cycle completed and a part was lost in process or a machine was down while holding a part')
+    level_text = ('Exact-time invariant: release from processing happens at operational-time distance max(0, cycle+offset) '
+                  'from acceptance, never early/late/twice; sources and sinks honour their cycle; checked on every transition of '
+                  'every reachable state for all placements of <=K interruptions.')
+    nontrivial = _fact_nontrivial('cycle_completed')
+
+    def jobs(self, tier):
+        K = 2 if tier == 'quick' else 3
+        specs = [S.MAINT(K, n=1), S.CYCLES(K), S.MAINT(K - 1), S.RES_SER(K - 1), S.CYCLES2(K - 1), S.FAN(K - 1)]
+        jobs = _line_jobs(specs, ['cycle'], tier)
+        for sp, ok in S.ser_family(n_max=1 if tier == 'quick' else 2):
+            if ok:
+                jobs.append(line_job(sp, ['cycle'], e2=1, max_depth=800))
+        return jobs
+
+
+@check
+class C08(Check):
+    prop = 'C08'
+    rule = ('every tie-break order x <=K injected failures/blocks/shutdowns on fan-out/fan-in, complementary gates, a '
+            're-entrant group, a group shared by two paths, nested groups, blocked inputs and batches; ground truth = '
+            'instance-level observers around every real give_part; non-trivial = some hand-over was refused and a state branched')
+    level_text = ('Routing invariants (configured edges only, gate predicate, no blocked input, exit path = innermost entered path, '
+                  'routing history = observed route with no leftovers, collected order, idle-longest choice) checked on every '
+                  'accepted hand-over chain and on every live part after every real event.')
+    nontrivial = _fact_nontrivial('refusal')
+
+    def jobs(self, tier):
+        K = 1 if tier == 'quick' else 2
+        th = tier != 'quick'
+        hg = 6 if th and K <= 1 else 4
+        specs = [S.FAN(K), S.FAN3(0, horizon=8), S.GATE(K), S.REENT(K), S.REENT(K, src_cycle=1), S.GRP2(K, horizon=hg),
+                 S.NEST_MID(K, horizon=hg), S.BLOCK(K), S.BATCH(K), S.REWIRE(K), S.GATEGRP(K)]
+        return _line_jobs(specs, ['route'], tier)
+
+
+@check
+class C11(Check):
+    prop = 'C11'
+    rule = ('every tie-break order x <=K injected capacity changes (to 0 and back), failures, restores, shutdowns on lines '
+            'in which several processors (also inside a shared group) compete for pools; non-trivial = a processor held '
+            'resources and some hand-over was refused')
+    level_text = ('Pool usage = sum of declared requirements of processors holding a reservation, part in process => exact '
+                  'holding, release on failure in the same transition, no idle operational holder when the clock advances; '
+                  'checked in every reachable state.')
+    nontrivial = _fact_nontrivial('holding', 'refusal')
+
+    def jobs(self, tier):
+        K = 1 if tier == 'quick' else 2
+        specs = [S.RES(K), S.RES(K, r=2, q=0), S.RES(K + 1, horizon=4), S.RES_SER(K), S.RES_SER(K + 1, horizon=4),
+                 S.GRP2(K, horizon=4, resources=True), S.RES_MAINT(K + 1)]
+        return _line_jobs(specs, ['resources'], tier)
+
+
+@check
+class C13(Check):
+    prop = 'C13'
+    rule = ('every tie-break order x <=K injected failures (now/+1), shutdowns, restores and work orders (several per '
+            'instant possible) on machines that are idle, processing, holding a finished part or already down; three ordered '
+            'probe callbacks per kind; non-trivial = a failure hit a part in process and a redundant call was checked')
+    level_text = ('State-machine and accounting invariants (no accept/release while down, failure loses exactly the part in '
+                  'process and reports it once, finished part survives, redundant calls leave the digest unchanged, uptime and '
+                  'utilisation equal independently integrated time, callbacks once per occurrence in order, default work order '
+                  'keeps the target down for exactly its duration) in every reachable state.')
+    nontrivial = _fact_nontrivial('failure_with_part', 'redundant_call_checked')
+
+    def jobs(self, tier):
+        K = 2 if tier == 'quick' else 3
+        specs = [S.MAINT(K, n=1, probes=3), S.MAINT(K - 1, probes=3), S.FAN(K - 1), S.BLOCKED_OUT(K)]
+        return _line_jobs(specs, ['shutdown'], tier)
+
+
+@check
+class C15(Check):
+    prop = 'C15'
+    rule = ('every tie-break order x <=K injected operations on every catalogue scenario; records compared with ground truth '
+            '(callbacks + give_part observers + executed failure events) after every real event; trace: real simulate(trace=True) '
+            'replays of explored paths compared with the dispatched event sequence; non-trivial = records of >=3 kinds appeared')
+    level_text = ('Log-faithfulness invariant evaluated after every real event in every reachable state (last level/resource record '
+                  '= live state, exactly one record per occurrence stamped now with id/quality/value, counters = record counts), '
+                  'and the exported trace equals the dispatch sequence on replayed explored paths.')
+
+    def nontrivial(self, r):
+        return len([k for k in r.get('facts', {}) if k.startswith('rec:')]) >= 3 and r.get('branching_states', 0) > 0
+
+    def jobs(self, tier):
+        K = 1 if tier == 'quick' else 2
+        specs = catalogue(K, tier != 'quick') + [S.MAINT(K + 1, n=1), S.VALUE(K)]
+        return _line_jobs(specs, ['data'], tier)
+
+
+@check
+class C16(Check):
+    prop = 'C16'
+    rule = ('every tie-break order x <=K injected failures/work orders on lines with valued parts, value added by finish '
+            'callbacks, batches, losses and work-order costs; non-trivial = a sink collected non-zero value')
+    level_text = ('Accounting identities (value = initial + history, entry format, source = -supplied, sink = received at receipt, '
+                  'maintainer = initial - costs of started orders, batch = sum of parts, net value = sum) in every reachable state.')
+    nontrivial = _fact_nontrivial('sink_value_nonzero')
+
+    def jobs(self, tier):
+        K = 1 if tier == 'quick' else 2
+        specs = [S.VALUE(K), S.VALUE(K + 1, horizon=4), S.VALUE_BATCH(K), S.MAINT(K), S.MAINT(K + 1, n=1)]
+        return _line_jobs(specs, ['value'], tier)
+
+
+@check
+class C17(Check):
+    prop = 'C17'
+    rule = ('every tie-break order x <=K injected failures/blocks on batching lines: output size None,1,2,3; cyclic input '
+            'patterns of single parts and batches of 0..3 parts; downstream blocking by sink cycle, buffer capacity, failing '
+            'processor; non-trivial = the batcher both received a batch and emitted output')
+    level_text = ('Order/size invariants of the batcher (FIFO of leaves across re-batching, exact output size, acceptance '
+                  'discipline, counting by leaves, history reaches members) after every real event in every reachable state.')
+    nontrivial = _fact_nontrivial('batcher_out', 'batcher_in:batch')
+
+    def jobs(self, tier):
+        K = 1
+        specs = []
+        pats = [(2, None, 3), (None, 0, 3), (3, 1), (0, 2, None), (None, None, 2)]
+        if tier != 'quick':
+            pats += [(1, 2, 3), (3, 3), (0, 0, 1), (2,), (None, 3, 0)]
+        for pat in pats:
+            for size in (None, 1, 2, 3):
+                for cap, kc in ((None, 0), (2, 1)):
+                    specs.append(S.BATCH(K if (size in (2, None) and cap is None) or tier != 'quick' else 0,
+                                         pattern=pat, size=size, cap=cap, sink_cycle=kc, horizon=5))
+        return _line_jobs(specs, ['batching', 'census'], tier)
